@@ -54,7 +54,12 @@ R_ORD = _rule("R-ORD", "r_ord", text="hash transcript order: the precedences bet
 R_TAG = _rule("R-TAG", "r_tag", text="the constants of every tagged-hash initialiser equal the SHA-256 midstate of SHA256(tag)||SHA256(tag) for the tag the specification assigns (tables/tags.json; reference computed by the checker)")
 R_BOOL = _rule("R-BOOL", "r_bool", text="every exported int verdict is boolean-valued (greatest fixpoint over the call graph; comparators and iteration counts are named exceptions)", all_for=("C07",))
 
-DECODE = [R_CHK, R_OBL, R_RED, R_ORD, R_TAG, R_BOOL]
+R_ABORT = _rule("R-ABORT", "r_abort", all_for=("C07",), text="no ARG_CHECK condition reachable from an exported function is computed from the *contents* of a raw `const unsigned char *` input "
+                "(NULL tests and opaque-object contracts excluded): crafted bytes cannot reach the illegal-argument callback")
+R_VERDICT = _rule("R-VERDICT", "r_verdict", text="every accepting return of the listed verifiers takes its value from the final equation predicate, or is a literal dominated by a branch on it "
+                  "(no accepting shortcut past the equation)")
+
+DECODE = [R_CHK, R_OBL, R_RED, R_ORD, R_TAG, R_BOOL, R_VERDICT]
 BOUNDS = [R_CAP, R_RING, R_WRAP, R_INB, R_LEN, R_SIB, R_BITS]
 
 ALL_CFG = ["K0", "K1", "K2", "K3"]
@@ -97,10 +102,10 @@ _prop("C05", [R_FLOW, R_PAIR],
       "scratch checkpoints of the multi-scalar batches are restored on every exit.",
       "ALL field / scalar / group / ecmult exactness and cross-configuration bit-identity: statements about 256-bit values, out of reach of static analysis here "
       "(a seeded carry loss in scalar_mul_shift_var is NOT detected; declared not applicable for those clauses)")
-_prop("C07", BOUNDS + [R_PAIR, R_SIZE, R_BOOL],
+_prop("C07", BOUNDS + [R_PAIR, R_SIZE, R_BOOL, R_ABORT],
       "Untrusted bytes, structural clauses.",
       "general in-bounds / UB-freedom of the proof verifiers (needs relational invariants such as npub = sum rsizes <= 128, outside the interval and linear-form domains: "
-      "those sites are listed in the evidence as not armed); termination; callback reachability from raw bytes (R-ABORT not built)",
+      "those sites are listed in the evidence as not armed); termination",
       assumptions=_BOUND_ASSUME)
 _prop("C08", DECODE + [R_BIND],
       "Pedersen commitments, structural clauses.",
@@ -146,6 +151,14 @@ _prop("C19", DECODE + [R_BIND, R_INB, R_CAP, R_LEN, R_PAIR, R_SIZE],
 
 def _ct_run(cfg, tier):
     import r_ct
+    from concurrent.futures import ThreadPoolExecutor
+    cfgs = PROPERTIES["C06"]["configs_thorough" if tier == "thorough" else "configs_quick"]
+    missing = [c for c in cfgs if ("R-CT", c) not in _cache]
+    if len(missing) > 1:
+        # the configurations are independent: analyse them side by side (two irx processes each)
+        with ThreadPoolExecutor(max_workers=len(missing)) as ex:
+            for c, res in zip(missing, ex.map(lambda c: r_ct.obligations_for(c, tier), missing)):
+                _cache[("R-CT", c)] = res
     return _memo("R-CT", cfg, lambda c: r_ct.obligations_for(c, tier))
 
 
@@ -168,7 +181,7 @@ _prop("C06", [R_CT], "",
                    "secp256k1_declassify is trusted as the maintainers' statement that a value is public, exactly as valgrind trusts it",
                    "the blinding state cancels algebraically in the result of secp256k1_ecmult_gen (its taint is dropped from that result only)",
                    "inline asm is data flow only: its template is scanned for control-transfer mnemonics"],
-      configs_quick=["K0"], configs_thorough=["K0", "K1", "K2", "K3"])
+      configs_quick=["K0", "K3"], configs_thorough=["K0", "K1", "K2", "K3"])
 
 
 def _eff_rule(name, func):
